@@ -4,7 +4,7 @@
 -/
 import Simpleline.Lemmas.InputCode
 
-namespace Simpleline
+namespace Simpleline.Input
 
 /-! ### counting `InputReceivedSignal`s in the queues -/
 
@@ -162,4 +162,4 @@ theorem irCode_go (scr : Nat) (evs : List OutEv) (cur : List Str) (acc : List In
     | line l => exact ih _ _ h
     | ask => apply ih; split <;> simp [h, Instr.irPending]
 
-end Simpleline
+end Simpleline.Input
